@@ -348,6 +348,20 @@ pub fn npn_canonization(
     }
 }
 
+/// Verification hook: the adjacent-swap and flip sequences that the canonization
+/// functions walk for this number of variables (same size dispatch as above)
+#[cfg(feature = "verif-hooks")]
+pub fn verif_walk_sequences(num_vars: usize) -> (Vec<u8>, Vec<u8>) {
+    if num_vars <= 6 {
+        (SWAPS[num_vars].to_vec(), FLIPS[num_vars].to_vec())
+    } else {
+        (
+            generate_swaps(num_vars, true),
+            generate_gray_flips(num_vars, true),
+        )
+    }
+}
+
 #[cfg(test)]
 mod tests {
     use crate::canonization::{generate_gray_flips, generate_swaps};
